@@ -774,6 +774,14 @@ def check_hop(ctx, calls, res):
             fails.append((c, None, 'shape', 'oracle'))
         if r['pairs'] != want:
             fails.append((c, None, 'hop-pairs', 'oracle'))
+        if c['family'] == 'corpus:docstring_elemental_hop':
+            ctx.notes['elemental_docstring_observation'] = {
+                'mesh': 'line elements e0={0,1}, e1={0,2}, e2={2,3}; node 3 within r of node 1, node 2 far',
+                'implementation_row_0': [j for i, j in r['pairs'] if i == 0],
+                'kernel_relation_row_0 (theorem C16_elemental_docstring_differs)': [1],
+                'docstring_relation_row_0': [1, 2],
+                'note': 'the docstring of calculate_euclidean_hop_graph (elemental) is weaker than the '
+                        'kernel; the property is checked against the kernel\'s relation (DESIGN C16)'}
         meta[c['id']] = c
         defs.append(f'Definition conn_{c["id"]} : list (list nat) := '
                     f'{lib.coq_list([cnatl(e) for e in conn])}.')
